@@ -19,6 +19,9 @@ theories/RunnerEq.vos theories/RunnerEq.vok theories/RunnerEq.required_vos: theo
 theories/RunnerQuiet.vo theories/RunnerQuiet.glob theories/RunnerQuiet.v.beautified theories/RunnerQuiet.required_vo: theories/RunnerQuiet.v theories/Base.vo theories/Status.vo theories/Rollup.vo theories/Runner.vo theories/RunnerSteps.vo theories/RunnerVerdict.vo gen/StatusTable.vo
 theories/RunnerQuiet.vio: theories/RunnerQuiet.v theories/Base.vio theories/Status.vio theories/Rollup.vio theories/Runner.vio theories/RunnerSteps.vio theories/RunnerVerdict.vio gen/StatusTable.vio
 theories/RunnerQuiet.vos theories/RunnerQuiet.vok theories/RunnerQuiet.required_vos: theories/RunnerQuiet.v theories/Base.vos theories/Status.vos theories/Rollup.vos theories/Runner.vos theories/RunnerSteps.vos theories/RunnerVerdict.vos gen/StatusTable.vos
+theories/RunnerSelect.vo theories/RunnerSelect.glob theories/RunnerSelect.v.beautified theories/RunnerSelect.required_vo: theories/RunnerSelect.v theories/Base.vo theories/Status.vo theories/Rollup.vo theories/RollupProofs.vo theories/Runner.vo theories/RunnerSteps.vo theories/RunnerQuiet.vo gen/StatusTable.vo
+theories/RunnerSelect.vio: theories/RunnerSelect.v theories/Base.vio theories/Status.vio theories/Rollup.vio theories/RollupProofs.vio theories/Runner.vio theories/RunnerSteps.vio theories/RunnerQuiet.vio gen/StatusTable.vio
+theories/RunnerSelect.vos theories/RunnerSelect.vok theories/RunnerSelect.required_vos: theories/RunnerSelect.v theories/Base.vos theories/Status.vos theories/Rollup.vos theories/RollupProofs.vos theories/Runner.vos theories/RunnerSteps.vos theories/RunnerQuiet.vos gen/StatusTable.vos
 theories/RunnerSteps.vo theories/RunnerSteps.glob theories/RunnerSteps.v.beautified theories/RunnerSteps.required_vo: theories/RunnerSteps.v theories/Base.vo theories/Status.vo theories/Rollup.vo theories/Runner.vo gen/StatusTable.vo
 theories/RunnerSteps.vio: theories/RunnerSteps.v theories/Base.vio theories/Status.vio theories/Rollup.vio theories/Runner.vio gen/StatusTable.vio
 theories/RunnerSteps.vos theories/RunnerSteps.vok theories/RunnerSteps.required_vos: theories/RunnerSteps.v theories/Base.vos theories/Status.vos theories/Rollup.vos theories/Runner.vos gen/StatusTable.vos
@@ -37,3 +40,6 @@ props/C02.vos props/C02.vok props/C02.required_vos: props/C02.v theories/Base.vo
 props/C03.vo props/C03.glob props/C03.v.beautified props/C03.required_vo: props/C03.v theories/Base.vo theories/Status.vo theories/Rollup.vo theories/RollupProofs.vo gen/StatusTable.vo
 props/C03.vio: props/C03.v theories/Base.vio theories/Status.vio theories/Rollup.vio theories/RollupProofs.vio gen/StatusTable.vio
 props/C03.vos props/C03.vok props/C03.required_vos: props/C03.v theories/Base.vos theories/Status.vos theories/Rollup.vos theories/RollupProofs.vos gen/StatusTable.vos
+props/C09.vo props/C09.glob props/C09.v.beautified props/C09.required_vo: props/C09.v theories/Base.vo theories/Status.vo theories/Rollup.vo theories/Runner.vo theories/RunnerSteps.vo theories/RunnerQuiet.vo theories/RunnerSelect.vo theories/RunnerEq.vo gen/StatusTable.vo
+props/C09.vio: props/C09.v theories/Base.vio theories/Status.vio theories/Rollup.vio theories/Runner.vio theories/RunnerSteps.vio theories/RunnerQuiet.vio theories/RunnerSelect.vio theories/RunnerEq.vio gen/StatusTable.vio
+props/C09.vos props/C09.vok props/C09.required_vos: props/C09.v theories/Base.vos theories/Status.vos theories/Rollup.vos theories/Runner.vos theories/RunnerSteps.vos theories/RunnerQuiet.vos theories/RunnerSelect.vos theories/RunnerEq.vos gen/StatusTable.vos
